@@ -311,6 +311,7 @@ func genOp(t *rapid.T, p Profile, w map[string]int, i, nlogs, nb, nwk int) Op {
 		op.Proof = genBadProof(t, nb, p.NoReplay)
 	case "replay":
 		op.Cp.Replay = rapid.IntRange(1, i+1).Draw(t, "replayidx")
+		op.Cp.ReplayOut = rapid.Bool().Draw(t, "replayout")
 		switch rapid.IntRange(0, 2).Draw(t, "rold") {
 		case 0:
 			op.Old = SizeSpec{Rel: "cur"}
